@@ -12,7 +12,7 @@ def run(R, ctx):
                                   "multi-key commands when their family is present) with hook H2 recording; ShardNum lowered so stripes collide",
                              events=True, shards=[2, 4, 1024])
     rule = R.rule
-    concsuite.run_conc(R, ctx, "multi-key", ["multikey"], (4, 40), env_extra=families.conc_env())
+    concsuite.run_conc(R, ctx, "multi-key", ["multikey", "bigmulti"], (4, 40), env_extra=families.conc_env())
     R.rule = rule + (" Concurrent exploration: 8 goroutines mixing MSET (both orders of the same key pair), LMOVE and SMOVE back and forth, RENAME "
                      "of a token, multi-key DEL/EXISTS/MGET and single-key traffic on colliding stripes (ShardNum 1, 2, 1024) under a 20 s watchdog; "
                      "at quiescence: MSET pair equal, list/set elements conserved, token exists under exactly one name, counter exact.")
